@@ -40,7 +40,8 @@ REAL = ["mokapot.parsers.pin", "mokapot.tabular_data", "mokapot.dataset.OnDiskPs
         "file system (/dev/shm)"]
 STUBS = ["joblib.Parallel -> vsim.sched.SimParallel (seeded baton-passing threads)"]
 PROBES = ["col_chunks>=2", "row_chunks>=2", "identifier_own_chunk", "nan_planted", "malformed", "parquet",
-          "workers>1", "switches>0", "case_mangled", "n_feat_mod_chunk==0", "multi_rowgroup", "path_parsed_before_with_other_table"]
+          "workers>1", "switches>0", "case_mangled", "n_feat_mod_chunk==0", "multi_rowgroup", "path_parsed_before_with_other_table",
+          "parquet_dictionary_typed_strings", "parquet_written_from_sliced_frame"]
 
 
 def _mangle_case(rng, name):
@@ -186,6 +187,9 @@ def make_scenario(seed):
         "max_workers": workers,
         "knobs": kn,
         "sched": world.gen_sched(rng, workers, est_steps=500),
+        # Parquet written by other tools: low-cardinality strings dictionary-typed; index metadata of a sliced pandas frame
+        "dict_strings": fmt == "parquet" and rng.random() < 0.35,
+        "index_start": rng.choice([1, 40, 10**6]) if fmt == "parquet" and rng.random() < 0.3 else 0,
     }
 
 
@@ -207,7 +211,8 @@ def run_scenario(scn, workdir):
         except Exception:  # noqa: BLE001 - only its side effects on process state matter here
             pass
         path.unlink()
-    world.materialise(table, path, scn["format"], scn.get("row_group"))
+    world.materialise(table, path, scn["format"], scn.get("row_group"), dict_strings=bool(scn.get("dict_strings")),
+                      index_start=int(scn.get("index_start") or 0))
     mal = scn["table"].get("malformed")
     n_rows = len(table["rows"])
     ccs = scn["knobs"]["CHUNK_SIZE_COLUMNS_FOR_DROP_COLUMNS"]
@@ -229,6 +234,8 @@ def run_scenario(scn, workdir):
         "malformed": int(bool(mal)),
         "nan_planted": int(bool(table["meta"]["nan_cols"])),
         "parquet": int(scn["format"] == "parquet"),
+        "parquet_dictionary_typed_strings": int(bool(scn.get("dict_strings"))),
+        "parquet_written_from_sliced_frame": int(bool(scn.get("index_start"))),
         "workers>1": int(scn["max_workers"] > 1),
         "switches>0": int(sstats["switches"] > sstats["parallel_calls"]),
         "case_mangled": int(bool(scn["table"]["mangle"])),
